@@ -2,10 +2,15 @@
   Ark.Proofs.BatchRelSet — C06 + C04 with relations, part 7: `setRelationsBatch` (the batch form
   of `SetRelations`) in normal form, and its two loops.
 
-  * `prepLoop`, `moveStepR`, `setRelationsBatch_eq` — without observers and callback the batch is:
-    `Lock`, the table selection, the loop of `prepareRelationsMove` over the non-empty selected
-    tables (find or create the destination; `none` — the table is skipped — when its targets do
-    not change), `moveEntities` for every collected move, `registerTargets`, `Unlock`;
+  * `prepLoop`, `moveStepR`, `setRelationsBatch_eq_planFirst` — without observers and callback
+    the batch is: the table selection, the loop of `prepareRelationsMove` over the non-empty
+    selected tables (find or create the destination; `none` — the table is skipped — when its
+    targets do not change), `Lock` (since the repair of defect D27 the lock is taken only after
+    that loop: `setRelationsBatch_prepLoop_panic` — a panic of the loop leaves the lock as it
+    was), `moveEntities` for every collected move, `registerTargets`, `Unlock`;
+    `setRelationsBatch_eq` — the same with `Lock` FIRST (the order before the repair): still an
+    equation of the operation, because selection and lookup loop neither read nor write the lock
+    (`frames_prepLoop`); the specifications downstream are proved from this form;
   * `PrepInv` / `prepLoop_spec` — the first loop never fails for a valid call and keeps the
     invariants; every collected move goes from a selected table whose targets change to another
     non-free table of the same archetype holding the edited targets; a selected table is skipped
@@ -16,6 +21,7 @@
 -/
 import Ark.Proofs.BatchRelSingles
 import Ark.Proofs.QueryRelAssign
+import Ark.Proofs.TargetsSetRel
 
 set_option autoImplicit false
 
@@ -107,29 +113,72 @@ theorem prepareRelationsMove_eq (t n : Nat) (rels : List RelID) (w : World) :
           | panic k s2 => simp only [M.bind, hc]
           | ok nt s2 => simp only [M.bind, hc]; rfl
 
-/-- **`setRelationsBatch` in normal form**: without observers and callback it is `Lock`, the
-    table selection, the lookup loop, the move loop, `registerTargets`, `Unlock` -/
-theorem setRelationsBatch_eq (run : ProbeRunner) (fo : FilterObj) (extra : List RelID)
+/-- `prepareRelationsMove` neither reads nor writes observers, log and lock -/
+theorem frames_prepareRelationsMove (t n : Nat) (rels : List RelID) :
+    Frames (prepareRelationsMove t n rels) := by
+  intro w o lg lk
+  rw [prepareRelationsMove_eq, prepareRelationsMove_eq]
+  have h1 : (w.reframe o lg lk).tbl t = w.tbl t := rfl
+  rw [h1, getExchangeTargets_any (w.tbl t) rels w (w.reframe o lg lk)]
+  have hs := getExchangeTargets_state (w.tbl t) rels w
+  cases hx : getExchangeTargets (w.tbl t) rels w with
+  | panic k s => rw [hx] at hs; simp only [Res.state] at hs; subst hs; rfl
+  | ok r s =>
+    rw [hx] at hs; simp only [Res.state] at hs; subst hs
+    obtain ⟨newRels, changed, cm⟩ := r
+    simp only [Res.mapS_ok]
+    cases changed with
+    | false => rfl
+    | true =>
+      simp only [if_true]
+      rw [frames_getOrCreate _ _ s o lg lk]
+      cases getOrCreate (s.tbl t).arch newRels s <;> rfl
+
+/-- the lookup loop of `setRelationsBatch` neither reads nor writes observers, log and lock -/
+theorem frames_prepLoop (rels : List RelID) : ∀ (ts : List Nat) (s : List RelMove),
+    Frames (prepLoop rels ts s)
+  | [], s => Frames.pure s
+  | t :: ts, s => by
+    intro w o lg lk
+    simp only [prepLoop]
+    have h1 : (w.reframe o lg lk).tbl t = w.tbl t := rfl
+    rw [h1]
+    split
+    · exact frames_prepLoop rels ts s w o lg lk
+    · rw [frames_prepareRelationsMove t _ rels w o lg lk]
+      cases prepareRelationsMove t (w.tbl t).len rels w with
+      | panic k s' => rfl
+      | ok x w' =>
+        cases x with
+        | none => exact frames_prepLoop rels ts _ w' o lg lk
+        | some mv => exact frames_prepLoop rels ts _ w' o lg lk
+
+/-- **`setRelationsBatch` in normal form**, in the order in which it runs since the repair of
+    defect D27: without observers and callback it is the table selection, the lookup loop, `Lock`,
+    the move loop, `registerTargets`, `Unlock` -/
+theorem setRelationsBatch_eq_planFirst (run : ProbeRunner) (fo : FilterObj) (extra : List RelID)
     (rels : List RelID) (w : World) (hl : w.isLocked = false) (hne : rels.isEmpty = false)
-    {l' : Lock} {b : Nat} (hlk : w.locks.lock = some (l', b)) {ts : List Nat}
-    (hts : getBatchTables fo extra { w with locks := l' } = .ok ts { w with locks := l' })
+    {ts : List Nat} (hts : getBatchTables fo extra w = .ok ts w)
     {moves : List RelMove} {w1 : World}
-    (hprep : prepLoop rels ts [] { w with locks := l' } = .ok moves w1)
+    (hprep : prepLoop rels ts [] w = .ok moves w1)
+    {l' : Lock} {b : Nat} (hlk : w1.locks.lock = some (l', b))
     (hno : ∀ (evt : Nat), w1.obs.hasObservers evt = false) :
     setRelationsBatch run fo extra rels false w =
-      unlock b (registerW (moves.foldl moveStepR w1) rels) := by
-  have hno2 : ∀ (evt : Nat), (registerW (moves.foldl moveStepR w1) rels).obs.hasObservers evt = false := by
+      unlock b (registerW (moves.foldl moveStepR { w1 with locks := l' }) rels) := by
+  have hno1 : ∀ (evt : Nat), ({ w1 with locks := l' } : World).obs.hasObservers evt = false := hno
+  have hno2 : ∀ (evt : Nat),
+      (registerW (moves.foldl moveStepR { w1 with locks := l' }) rels).obs.hasObservers evt = false := by
     intro evt
-    show (moves.foldl moveStepR w1).obs.hasObservers evt = false
+    show (moves.foldl moveStepR { w1 with locks := l' }).obs.hasObservers evt = false
     rw [foldl_moveStepR_obs]; exact hno evt
   unfold setRelationsBatch
   simp only [M.bind_apply, checkLocked_unlocked w hl, M.assert_apply, hne, Bool.not_false, if_true,
-    lock_ok hlk, hts, M.get_apply]
+    hts, M.get_apply]
   rw [forIn_prepLoop rels _ ?_, hprep]
-  · simp only [hno, Bool.false_eq_true, if_false, M.bind_apply]
+  · simp only [lock_ok hlk, hno1, Bool.false_eq_true, if_false, M.bind_apply]
     rw [forIn_foldSt (fun _ => True) moveStepR
       (fun (s : List RelMove) W mv => s ++ [({ mv with start := (W.tbl mv.newT).len } : RelMove)])
-      _ ?_ (fun _ _ _ => trivial) moves [] w1 trivial]
+      _ ?_ (fun _ _ _ => trivial) moves [] { w1 with locks := l' } trivial]
     · simp only [registerTargets_eq, M.get_apply, hno2, Bool.false_eq_true, if_false]
     · intro mv s W _
       simp only [M.bind_apply, M.get_apply, moveEntities_eq, M.pure_apply]
@@ -146,6 +195,59 @@ theorem setRelationsBatch_eq (run : ProbeRunner) (fo : FilterObj) (extra : List 
         cases x with
         | none => rfl
         | some mv => rfl
+
+/-- when the lookup loop panics, `setRelationsBatch` panics with the same class and the same
+    state: the lock has not been taken (the repair of defect D27) -/
+theorem setRelationsBatch_prepLoop_panic (run : ProbeRunner) (fo : FilterObj) (extra : List RelID)
+    (rels : List RelID) (withFn : Bool) (w : World) (hl : w.isLocked = false)
+    (hne : rels.isEmpty = false)
+    {ts : List Nat} (hts : getBatchTables fo extra w = .ok ts w) {k : PanicKind} {w1 : World}
+    (hprep : prepLoop rels ts [] w = .panic k w1) :
+    setRelationsBatch run fo extra rels withFn w = .panic k w1 := by
+  unfold setRelationsBatch
+  simp only [M.bind_apply, checkLocked_unlocked w hl, M.assert_apply, hne, Bool.not_false, if_true,
+    hts, M.get_apply]
+  rw [forIn_prepLoop rels _ ?_, hprep]
+  intro t s W
+  simp only [M.bind_apply, M.get_apply]
+  cases h0 : ((W.tbl t).len == 0) with
+  | true => rfl
+  | false =>
+    simp only [Bool.false_eq_true, if_false, M.bind_apply]
+    cases hp : prepareRelationsMove t (W.tbl t).len rels W with
+    | panic k w' => rfl
+    | ok x w' =>
+      cases x with
+      | none => rfl
+      | some mv => rfl
+
+/-- **`setRelationsBatch` in normal form**: without observers and callback it is `Lock`, the
+    table selection, the lookup loop, the move loop, `registerTargets`, `Unlock` — the order before
+    the repair of defect D27; still an equation of the repaired operation, because the table
+    selection and the lookup loop neither read nor write the lock
+    (`setRelationsBatch_eq_planFirst` is the order in which the operation runs) -/
+theorem setRelationsBatch_eq (run : ProbeRunner) (fo : FilterObj) (extra : List RelID)
+    (rels : List RelID) (w : World) (hl : w.isLocked = false) (hne : rels.isEmpty = false)
+    {l' : Lock} {b : Nat} (hlk : w.locks.lock = some (l', b)) {ts : List Nat}
+    (hts : getBatchTables fo extra { w with locks := l' } = .ok ts { w with locks := l' })
+    {moves : List RelMove} {w1 : World}
+    (hprep : prepLoop rels ts [] { w with locks := l' } = .ok moves w1)
+    (hno : ∀ (evt : Nat), w1.obs.hasObservers evt = false) :
+    setRelationsBatch run fo extra rels false w =
+      unlock b (registerW (moves.foldl moveStepR w1) rels) := by
+  have hts' : getBatchTables fo extra w = .ok ts w :=
+    ((frames_getBatchTables fo extra).of_reframe_ok (w := w) (o := w.obs) (lg := w.log) (lk := l')
+      hts).1
+  obtain ⟨hprep', hw1⟩ := (frames_prepLoop rels ts []).of_reframe_ok
+    (w := w) (o := w.obs) (lg := w.log) (lk := l') hprep
+  have hlocks : (w1.reframe w.obs w.log w.locks).locks.lock = some (l', b) := hlk
+  have hobs : w1.obs = w.obs := congrArg (·.obs) hw1
+  have hno' : ∀ evt : Nat, (w1.reframe w.obs w.log w.locks).obs.hasObservers evt = false :=
+    fun evt => by rw [← hobs]; exact hno evt
+  have := setRelationsBatch_eq_planFirst run fo extra rels w hl hne hts' hprep' hlocks hno'
+  rw [this]
+  have e : ({ w1.reframe w.obs w.log w.locks with locks := l' } : World) = w1 := hw1.symm
+  rw [e]
 
 end World
 
